@@ -230,6 +230,24 @@ async def check_tree(mode, nodes, obs, sd, idx, acc):
             # every check reports disagreement with the documented result on the trees it looks at
             acc.v(f"soll_is_required={soll}: {d}; expressions {exprs}", case_of(nodes, sd, idx, soll=soll, exprs=exprs))
             return
+    roots = [i for i, n in enumerate(nodes, start=1) if n["par"] == 0]
+    if len(roots) == 1 and mode in ("C13", "C14"):
+        # the single root through validate_segment_level: same result as through validate_deep_anwendungshandbuch
+        from ahbicht.validation.validation import validate_segment_level
+        for soll in (True, False):
+            d2, _, objs2 = build_ahb(nodes, random.Random(rs))
+            setup_cer()
+            acc.c("validations")
+            try:
+                r2 = ("ok", [project_result(x) for x in await validate_segment_level(objs2[roots[0]], soll_is_required=soll)])
+            except NotImplementedError:
+                r2 = ("error", "NotImplementedError")
+            except BaseException as e:  # pylint:disable=broad-except
+                r2 = ("exception", f"{type(e).__name__}: {e}")
+            if r2 != results[soll]:
+                acc.v(f"validate_segment_level on the root group (soll_is_required={soll}) gives {short(r2)}, validate_deep_anwendungshandbuch gives "
+                      f"{short(results[soll])}; expressions {exprs}", case_of(nodes, sd, idx, soll=soll, exprs=exprs))
+                return
     if mode == "C14":
         for soll, to in ((True, "MUSS"), (False, "KANN")):
             deep2, exprs2, _ = build_ahb(nodes, random.Random(rs), soll_to=to)
